@@ -306,8 +306,8 @@ def r6(ctx: Ctx) -> None:
 
 
 @rule("C11", "R7.geometry-primitives", "SHARED(C18)",
-      'the grid helper is exact: Rectangle.rectangle_grid / duplicate satisfy the C18 tiling laws (cell size * count == parent size, first cell at the low border, contiguous, last cell at the high border, x geometry independent of the row index) -- evaluated for the helpers the die decomposition calls', floor=6)
+      'the grid and split helpers are exact and hand on the region tag: Rectangle.rectangle_grid / split* / duplicate satisfy the C18 tiling and attribute-inheritance laws (cell size * count == parent size, first cell at the low border, contiguous, last cell at the high border, x geometry independent of the row index) -- evaluated for the helpers the die decomposition calls', floor=6)
 def shared_geometry(ctx: Ctx) -> None:
     from . import C18 as _c18
     from .common import support
-    support(ctx, [_c18.r5, _c18.r6], {"Rectangle.rectangle_grid", "Rectangle.duplicate"})
+    support(ctx, [_c18.r1, _c18.r5, _c18.r6], {"Rectangle.rectangle_grid", "Rectangle.duplicate", "Rectangle.split", "Rectangle.split_horizontal", "Rectangle.split_vertical"})
